@@ -18,6 +18,7 @@ func init() {
 		ID: "C07",
 		Explanation: "Decides: R1 no unsynchronised package-level mutable state — every package-level variable of the library packages is either written only during package initialisation, or safe for concurrent use by construction (*sync.Pool), or a pure memo whose every access is under one package-level mutex in the right mode; R2 package-level slices/maps are not handed out without a copy; R3 pool discipline — the pool is used only by NewContext (Get) and Destroy (Put), the value is reset on every path out of NewContext, Reset covers every field of Context, no use of a context after its release and no escape of it in the ServeHTTP methods. " +
 			"R13 (= C16.R7) lists derived from a group's option slice are copies, not appends into its spare capacity. " +
+			"R14 exported accessors hand out copies of the receiver's slices and maps. " +
 			"Not decided: races inside user handlers; scheduling-dependent behaviour that does not go through shared state.",
 		Assumptions: commonAssumptions,
 		Run: func(c *Ctx) {
@@ -37,6 +38,7 @@ func init() {
 			ruleEntryConditionBelongsToTheGroup(c, "R11")
 			ruleCallersSlicesAreNotRetained(c, "R12", "")
 			ruleAppendDoesNotAlias(c, "R13", "mux.(*Group).New", "mux.NewGroup", "mux.NewRouter")
+			ruleAccessorsHandOutCopies(c, "R14")
 		},
 	})
 }
